@@ -65,8 +65,8 @@ def name_of(v):
 
 
 # the same fault raised as a subclass of the exception classes the library itself catches internally (a comparison
-# that raises ValueError / KeyError / TypeError / IndexError / AttributeError must reach the caller like any other)
-FAULTS = [CmpError] + [type('CmpError', (CmpError, b), {}) for b in (ValueError, KeyError, TypeError, IndexError, AttributeError)]
+# that raises ValueError / KeyError / TypeError must reach the caller like any other)
+FAULTS = [CmpError] + [type('CmpError', (CmpError, b), {}) for b in (ValueError, KeyError, TypeError)]
 
 CTL = {'failcls': CmpError, 'n': 0, 'fail': -1, 'hook': None, 'serial': 0, 'live': False, 'failsym': None, 'failed_at': 0, 'hooksym': None, 'hookfn': None, 'hooked_at': 0}
 
